@@ -4,6 +4,8 @@ From Coq Require Import Extraction ExtrOcamlBasic.
 From Coq Require Import List NArith ZArith.
 From DC Require Import BitMap.Model.
 From DC Require Window.Model.
+From DC Require Grid.Model.
+From DC Require Adjustable.Model.
 
 Extraction Language OCaml.
 
@@ -12,4 +14,6 @@ Extraction "model.ml"
   Z.add Z.mul Z.sub Z.opp Z.of_N Z.to_N Z.div Z.modulo Z.eqb Z.ltb Z.leb Z.compare Z.abs_N
   Nat.add Nat.eqb Nat.ltb
   BitMap.Model.bitmap_model_entry BitMap.Model.bitmap_orig_entry BitMap.Model.bitmap_spec_entry
-  Window.Model.window_model_entry Window.Model.window_spec_entry.
+  Window.Model.window_model_entry Window.Model.window_spec_entry
+  Grid.Model.grid_model_entry Grid.Model.grid_spec_entry
+  Adjustable.Model.adjustable_model_entry Adjustable.Model.adjustable_check_entry.
